@@ -60,6 +60,8 @@ def items(tier, seed):
             its.append({"kind": "F", "base": bi, "hash": hm, "variant": "identity", "tier": tier})
             its.append({"kind": "F", "base": bi, "hash": hm, "variant": "within", "tier": tier})
             its.append({"kind": "F", "base": bi, "hash": hm, "variant": "size", "tier": tier})
+            its.append({"kind": "F", "base": bi, "hash": hm, "variant": "allsizes", "tier": tier})
+            its.append({"kind": "F", "base": bi, "hash": hm, "variant": "within-allsizes", "tier": tier})
             perms = list(itertools.permutations(labels))
             if tier == "quick":
                 perms = perms[1::5]
@@ -143,6 +145,10 @@ def variant_of(inputs, output, item):
         return tuple(t[::-1] for t in inputs), output[::-1], {}
     if v == "size":
         return inputs, output, {"independent": skel.all_labels(inputs)[0]}
+    if v == "allsizes":
+        return inputs, output, {"independent": "*"}
+    if v == "within-allsizes":
+        return tuple(t[::-1] for t in inputs), output[::-1], {"independent": "*"}
     if v == "relabel":
         labels = skel.all_labels(inputs)
         m = dict(zip(labels, item["perm"]))
@@ -168,7 +174,9 @@ def run_F(item, rec):
             R.hashlib, R.pickle = stub_modules()
             size = {c: symx.sym_int("d_" + c, 2) for c in labels}
             size2 = dict(size)
-            if "independent" in extra:
+            if extra.get("independent") == "*":
+                size2 = {c: symx.sym_int("e_" + c, 2) for c in labels}
+            elif "independent" in extra:
                 size2[extra["independent"]] = symx.sym_int("e_" + extra["independent"], 2)
             opt = ReusableRandomGreedyOptimizer(max_repeats=1, seed=3, accel=False, parallel=False, hash_method=item["hash"], directory_split=False)
             # the entry for q1 is installed through the public update_from_tree with a fixed tree
